@@ -23,6 +23,7 @@ EXPLANATION = (
     "leaves the loop; the loop is left only on EOF; the finally unlinks every remaining entry, folders last; command and "
     "resource-type vocabularies of senders and receiver agree; register/unregister pairing in the memmapping clients. "
     "Pipe EOF semantics on client death, PIPE_BUF atomicity and actual deletion on disk are NOT decided."
+    ' The folder registered with the tracker is absolute on every path (C20.ABSOLUTE-NAMES).'
 )
 ASSUMPTIONS = [
     "reference fact: multiprocessing.resource_tracker.ResourceTracker (the running interpreter's stdlib) sends REGISTER / UNREGISTER / PROBE lines",
@@ -557,7 +558,37 @@ def contexts(ctx):
         ctx.check(ok, x, "creating the temporary folder tolerates EEXIST and nothing else", "the folder creation of the reducer does not re-raise exactly the errors other than EEXIST (a second dispatch fails, or real errors are hidden)")
 
 
+def absolute_names(ctx):
+    """The tracker is another process: it keeps the working directory it was started in. Every name sent to it must
+    therefore be absolute - the temporary folder (and with it every file below it) is built from `temp_folder`, which may
+    come from the user (argument, JOBLIB_TEMP_FOLDER) as a relative path. In `_get_temp_dir` the last definition of the
+    base folder on EVERY path to the join that builds the pool folder is an `os.path.abspath(...)` of it."""
+    f = ctx.repo.func(MR, "_get_temp_dir")
+    g = cfg_of(f)
+    joins = [c for c in calls_in(f) if call_name(c) == "os.path.join" and len(c.args) == 2 and dotted(c.args[1]) == "pool_folder_name"]
+    ctx.need(joins, "_get_temp_dir: the join building the pool folder was not found")
+    # the join whose value is returned: the one after which no other one is evaluated (an earlier one only probes /dev/shm)
+    joins = [j for j in joins if not any(k is not j and g.path_exists(g.nodes_of(j), g.nodes_of(k)) for k in joins)] or joins
+    base = dotted(joins[0].args[0])
+    ctx.need(base is not None, "_get_temp_dir: base folder of the join is not a name")
+    defs = [a for a in nodes_of_type(f, (ast.Assign, ast.AugAssign, ast.AnnAssign)) if base in stores_to(a)]
+    def is_abs(a):
+        v = getattr(a, "value", None)
+        return isinstance(v, ast.Call) and call_name(v) == "os.path.abspath"
+    abs_defs = [a for a in defs if is_abs(a)]
+    others = [a for a in defs if not is_abs(a)]
+    jn = g.nodes_of(joins[0])
+    ok = bool(abs_defs) and g.every_path_to(jn, g.nodes_of_all(abs_defs))
+    # ... and no other definition can come after the last abspath on the way to the join
+    late = [a for a in others if any(g.path_exists(g.nodes_of(x), g.nodes_of(a)) for x in abs_defs) and g.path_exists(g.nodes_of(a), jn)] if ok else []
+    # a parameter value reaching the join without any definition at all is covered by every_path_to (entry -> join)
+    ctx.check(ok and not late, (late or abs_defs or [joins[0]])[0], "the folder registered with the resource tracker is absolute on every path (user-provided relative paths included)",
+              "`%s` can reach `%s` without having gone through os.path.abspath: a relative temp_folder / JOBLIB_TEMP_FOLDER is registered with the tracker as a relative name, "
+              "which the tracker process resolves against ITS working directory - after a chdir in the client the real folder is never cleaned up" % (base, unparse(joins[0], 60)))
+
+
 def run(ctx):
+    ctx.run("C20.ABSOLUTE-NAMES", "R-FLOW", absolute_names)
     ctx.run("C20.UNLINK-AT-ZERO", "R-ORDER", unlink_at_zero)
     ctx.run("C20.ONLY-REGISTERED", "R-ORDER", only_registered)
     ctx.run("C20.SURVIVES", "R-ERRDISC", survives)
